@@ -175,6 +175,7 @@ func c16Prop(c *sim.Case) {
 	full := &configv1.Config{TriggerRules: []*configv1.TriggerRule{{ExcludedPaths: []*configv1.StringMatch{{MatchType: &configv1.StringMatch_Prefix{Prefix: "/public"}}}}}}
 	ca := sim.NewCA("c16-ca")
 	ca2 := sim.NewCA("c16-ca2")
+	fastCA := false
 	stopRedis := func() {}
 	if storeKind == "redis" {
 		stopRedis = sim.RealTimeRedis()
@@ -218,7 +219,12 @@ func c16Prop(c *sim.Case) {
 			t.caFile = filepath.Join(sim.ScratchDir(), fmt.Sprintf("c16-ca-%d-%s-%d.pem", os.Getpid(), t.name, time.Now().UnixNano()))
 			_ = os.WriteFile(t.caFile, ca.PEM, 0o644)
 			cfg.TrustedCaConfig = &oidcv1.OIDCConfig_TrustedCertificateAuthorityFile{TrustedCertificateAuthorityFile: t.caFile}
-			cfg.TrustedCertificateAuthorityRefreshInterval = durationpb.New(time.Duration(10+sim.Pick(c, "ca.interval", 21)) * time.Millisecond)
+			iv := time.Duration(10+sim.Pick(c, "ca.interval", 21)) * time.Millisecond
+			if c16Force || sim.Weighted(c, "ca.fast", 2, 1) == 1 {
+				iv = time.Millisecond // reloads in quick succession: a reload may still be running when the next starts
+				fastCA = true
+			}
+			cfg.TrustedCertificateAuthorityRefreshInterval = durationpb.New(iv)
 		}
 		if storeKind == "redis" {
 			mr, _ := sim.Redis()
@@ -376,7 +382,7 @@ func c16Prop(c *sim.Case) {
 				select {
 				case <-done:
 					return
-				case <-time.After(15 * time.Millisecond):
+				case <-time.After(map[bool]time.Duration{false: 15 * time.Millisecond, true: time.Millisecond}[fastCA]):
 				}
 				for _, t := range tenants {
 					if t.caFile != "" {
